@@ -783,9 +783,12 @@ class DateParserPlugin(plugins.Plugin):
                 return self.errorize(text, node)
             else:
                 n = DateTimeNode(node.fieldname, dt, node.boost)
-        except DateParseError:
+        except (DateParseError, ValueError, OverflowError):
+            # ValueError/OverflowError: the words read as a date that does
+            # not exist (February 30th, year 0, 9000 years from now).  The
+            # error node takes its position from the node it wraps.
             e = sys.exc_info()[1]
-            n = self.errorize(e, node)
+            return self.errorize(e, node)
         n.startchar = node.startchar
         n.endchar = node.endchar
         return n
@@ -794,26 +797,33 @@ class DateParserPlugin(plugins.Plugin):
         start = end = None
         dp = self.dateparser.get_parser()
 
-        if node.start:
-            start = dp.date_from(node.start, self.basedate)
-            if start is None:
-                return self.errorize(node.start, node)
-        if node.end:
-            end = dp.date_from(node.end, self.basedate)
-            if end is None:
-                return self.errorize(node.end, node)
+        try:
+            if node.start:
+                start = dp.date_from(node.start, self.basedate)
+                if start is None:
+                    return self.errorize(node.start, node)
+            if node.end:
+                end = dp.date_from(node.end, self.basedate)
+                if end is None:
+                    return self.errorize(node.end, node)
 
-        if start and end:
-            ts = timespan(start, end).disambiguated(self.basedate)
-            start, end = ts.start, ts.end
-        elif start:
-            start = start.disambiguated(self.basedate)
-            if isinstance(start, timespan):
-                start = start.start
-        elif end:
-            end = end.disambiguated(self.basedate)
-            if isinstance(end, timespan):
-                end = end.end
+            if start and end:
+                ts = timespan(start, end).disambiguated(self.basedate)
+                start, end = ts.start, ts.end
+            elif start:
+                # (relative dates such as "+1mo" are already plain datetimes)
+                if isinstance(start, (adatetime, timespan)):
+                    start = start.disambiguated(self.basedate)
+                if isinstance(start, timespan):
+                    start = start.start
+            elif end:
+                if isinstance(end, (adatetime, timespan)):
+                    end = end.disambiguated(self.basedate)
+                if isinstance(end, timespan):
+                    end = end.end
+        except (DateParseError, ValueError, OverflowError):
+            e = sys.exc_info()[1]
+            return self.errorize(e, node)
         drn = DateRangeNode(node.fieldname, start, end, boost=node.boost)
         drn.startchar = node.startchar
         drn.endchar = node.endchar
@@ -914,7 +924,12 @@ class DateTagger(Tagger):
                     dateparser = plugin.dateparser
                     basedate = plugin.basedate
 
-                    d, newpos = dateparser.parse(dtext, basedate)
+                    try:
+                        d, newpos = dateparser.parse(dtext, basedate)
+                    except (ValueError, OverflowError):
+                        # Reads as a date that does not exist; leave the
+                        # words to the other taggers
+                        d = None
                     if d:
                         node = DateTimeNode(fieldname, d)
                         node.startchar = match.start()
